@@ -47,4 +47,53 @@ def runB (c : Cfg) : VirtualTerm → List Item → Except String (VirtualTerm ×
 /-- a history of writes as a list of calls -/
 def writesOf (h : List (Nat × Bytes)) : List Item := h.map fun u => .w (u.1 : Int) u.2
 
+/-! ### the live writer with `Close()` calls in the middle: where the updates land -/
+
+/-- an update of a line, or a `Close()` -/
+inductive Upd where
+  | w (l : Nat) (t : Bytes)
+  | c
+  deriving DecidableEq, Repr
+
+def Upd.item : Upd → Item
+  | .w l t => .w (l : Int) t
+  | .c => .c
+
+/-- the history in PHYSICAL lines: a write to line `l` after `d` Closes lands `d` rows lower, on line `l + d` -/
+def physHist : Nat → List Upd → List (Nat × Bytes)
+  | _, [] => []
+  | d, .w l t :: rest => (l + d, t) :: physHist d rest
+  | d, .c :: rest => physHist (d + 1) rest
+
+/-- number of `Close()` calls -/
+def closesOf : List Upd → Nat
+  | [] => 0
+  | .w _ _ :: rest => closesOf rest
+  | .c :: rest => closesOf rest + 1
+
+/-- the physical line the terminal's cursor can be on at most: every write raises it to its physical
+line, every `Close()` moves it one below the previous maximum -/
+def physMax : Nat → Nat → List Upd → Nat
+  | m, _, [] => m
+  | m, d, .w l _ :: rest => physMax (max m (l + d)) d rest
+  | m, d, .c :: rest => physMax (m + 1) (d + 1) rest
+
+/-- every update goes to a (physical) line that is still on the screen when it is made -/
+def ReachUpd (H r0 : Nat) : Nat → Nat → List Upd → Prop
+  | _, _, [] => True
+  | m, d, .w l _ :: rest => r0 + max m (l + d) - (H - 1) ≤ r0 + (l + d) ∧ ReachUpd H r0 (max m (l + d)) d rest
+  | m, d, .c :: rest => ReachUpd H r0 (m + 1) (d + 1) rest
+
+/-- a list of calls with non-negative lines as an update sequence -/
+def updsOf : List Item → Option (List Upd)
+  | [] => some []
+  | .w l t :: rest => if l < 0 then none else (updsOf rest).map (.w l.toNat t :: ·)
+  | .c :: rest => (updsOf rest).map (.c :: ·)
+
+/-- `ReachUpd`, decided -/
+def reachUpdB (H r0 : Nat) : Nat → Nat → List Upd → Bool
+  | _, _, [] => true
+  | m, d, .w l _ :: rest => decide (r0 + max m (l + d) - (H - 1) ≤ r0 + (l + d)) && reachUpdB H r0 (max m (l + d)) d rest
+  | m, d, .c :: rest => reachUpdB H r0 (m + 1) (d + 1) rest
+
 end Rare.C20
